@@ -341,6 +341,31 @@ func cmdCheck(args []string) int {
 		}
 	}
 
+	// lemmas: stand-alone SMT scripts (under /verif/lemmas) that link what the contracts establish
+	// to the wording of the property; each must be unsatisfiable. Their bound (bit width) is stated
+	// in the file; they are reported separately and not counted among the proved obligations.
+	var lemmaEv []map[string]interface{}
+	for _, lm := range pc.Lemmas {
+		data, err := os.ReadFile(filepath.Join(verifRoot, "lemmas", lm+".smt2"))
+		if err != nil {
+			report("lemma:"+lm, "lemma file missing", err.Error(), true)
+			continue
+		}
+		r := Solve(string(data), workDir, "lemma_"+sanitize(lm), timeout)
+		st := "undecided"
+		switch r.Status {
+		case "unsat":
+			st = "discharged"
+		case "sat":
+			st = "refuted"
+		}
+		lemmaEv = append(lemmaEv, map[string]interface{}{"name": lm, "status": st, "backend": r.Solver, "seconds": round3(r.Seconds),
+			"label": "bounded lemma (fixed bit width, see the file); not counted as proved"})
+		if st != "discharged" {
+			report("lemma:"+lm, "a lemma the property's argument rests on does not hold (or could not be decided)", r.Model, true)
+		}
+	}
+
 	if *updateBaseline {
 		baseline.Claimed[id] = newBaseline
 		baseline.Vacuity[id] = vac
@@ -387,6 +412,7 @@ func cmdCheck(args []string) int {
 		"known_findings": knownHit,
 		"missing_claimed_obligations": missing,
 		"bounded":       boundedEv,
+		"lemmas":        lemmaEv,
 		"timeout_s":     timeout,
 	}
 	if level != "proof" {
